@@ -36,6 +36,7 @@ void f_vf_dealloc(uint32_t flags, uint64_t id, uint8_t *p, uint64_t bytes);
 uint64_t f_vf_soccc(uint64_t id);
 #define VF_SOCCC(id) ((id) + 1000u)
 
+extern uint64_t g_wit; /* witness byte index of run-time-length copies */
 void *vf_memcpy(void *d, const void *s, uint64_t n);
 void *vf_memmove(void *d, const void *s, uint64_t n);
 void *vf_memset(void *d, int c, uint64_t n);
